@@ -92,6 +92,7 @@ let method_of_string = function
 let dispatch fn a =
   let t i = text_of_string a.(i) and b i = bool_of_string' a.(i) in
   match fn with
+  | "noop" -> "-"
   | "clean" -> string_of_text (x_clean (t 0))
   | "iban_new" -> out string_of_text (x_iban_new (Lazy.force banks) (t 0) (b 1) (b 2))
   | "iban_new_after" | "iban_new_inst" -> out string_of_text (x_iban_new (Lazy.force banks) (t 0) (b 1) (b 2))
@@ -118,6 +119,7 @@ let dispatch fn a =
     (match s_iban_verdict (t 0) with None -> "ACCEPT" | Some l -> "REJECT|" ^ String.concat "|" (List.map exn_name l))
   | "spec_bic_verdict" ->
     (match s_bic_verdict (b 1) (t 0) with None -> "ACCEPT" | Some l -> "REJECT|" ^ String.concat "|" (List.map exn_name l))
+  | "spec_variant_same_api" -> "SAME"
   | "spec_variant_same" -> if x_text_eqb (x_clean (t 0)) (x_clean (t 1)) then "SAME" else "SAME|DIFF"
   | "iban_formatted_rt" ->
     let s = x_clean (t 0) in let f = x_iban_formatted s in
@@ -172,7 +174,7 @@ let dispatch fn a =
   | "spec_national_accept" | "spec_national_accept_after" ->
     let s = x_clean (t 0) in
     string_of_bool' (s_iso_ok s && s_published_ok (x_iban_cc s) (x_iban_bban s))
-  | "spec_no_foreign_exception" | "spec_only_rejects" | "spec_generate" | "spec_generate_national" | "spec_rebuild" | "spec_random" | "spec_value_laws" | "spec_copies" -> "OK"
+  | "spec_components_national" | "spec_no_foreign_exception" | "spec_only_rejects" | "spec_generate" | "spec_generate_national" | "spec_rebuild" | "spec_random" | "spec_value_laws" | "spec_copies" -> "OK"
   | "spec_published" -> string_of_bool' (s_published_ok (t 0) (t 1))
   | "generated_published" -> if a.(0) = "-" then "SKIP" else string_of_bool' (s_published_ok (t 0) (t 1))
   | "algo_validate" -> out string_of_bool' (x_algo_validate (t 0) (texts_of_string a.(1)) (t 2))
